@@ -110,8 +110,14 @@ def run(ctx, rep, tier):
                 rep.violation("G10", node, f, "member write not dominated by checkNotInUse()",
                               "%s is modified on a path that has not passed the busy check" % short(q),
                               key="%s|write of %s before busy check" % (f.short, short(q)))
+        elif not any(gg.dominates(cn, gg.exit) for cn in check_nodes):
+            # a path that returns normally without having asked: the call is accepted while the circuit is busy (even if that
+            # path happens to write nothing, the caller is told the modification went through)
+            rep.violation("G10", f.decl, f, "%s can return normally without passing checkNotInUse()" % f.short,
+                          "a structural setter called while a placement runs must be refused on every path, including the paths that find "
+                          "nothing to do", key="%s|normal return before busy check" % f.short)
         else:
-            rep.holds("G10", f.decl, f, "checkNotInUse() dominates %d member write(s)" % len(sites),
+            rep.holds("G10", f.decl, f, "checkNotInUse() dominates %d member write(s) and every normal return" % len(sites),
                       "structural: %s" % sorted(short(w).split("::")[-1] for w in (written & struct_q)))
 
     # ---- X1 -----------------------------------------------------------------
